@@ -92,6 +92,10 @@ def render_prog(prog):
                     else:
                         top.append(f"@mixin wr{pc} {{ @content; }}")
                         out += [pad + f"@include wr{pc} {{"] + body + [pad + "}"]
+                elif kind == "contentm":
+                    # the wrapper mixin has locals named like the tested variables: the block must not see them
+                    top.append(f"@mixin wm{pc} {{ $x: 8; $y: 8; @content; }}")
+                    out += [pad + f"@include wm{pc} {{"] + body + [pad + "}"]
                 else:
                     raise ValueError(kind)
                 i = m + 1
